@@ -397,7 +397,7 @@ CODEC_TB = COMMON_TB + [
 ]
 
 PROPS["C01"] = {
-    "lean_modules": ["Stef.Props.C01"],
+    "lean_modules": ["Stef.Props.C01", "Stef.Props.C01Enc"],
     "harness": [{"bin": "h_codec", "args": ["roundtrip"], "oracle_prefixes": ["sd decode"]}],
     "rule": ("cases = type-directed random histories on otelstef Metrics and Spans writers (wide value distributions: all "
              "float classes, integer extremes/wrapping deltas, repeated strings, lengths across 0/1/62/63/64/65, nested "
